@@ -313,9 +313,10 @@ def search_candidates(h, upto):
         if c['abbr'] not in abbrs:
             abbrs.append(c['abbr'])
     out = []
-    for i, d in enumerate(dicts):
+    for i in list(range(base_n, len(dicts))) + list(range(base_n)):   # the twins first
+        d = dicts[i]
         pool = abbrs + (['foo', 'm10', 'p1.5'] if d.get('type') == 'stylesheet' else ['p*', 'div', '.b>._e'])
-        for a in pool[:8]:
+        for a in pool[:6]:
             out.append({'dicts': dicts, 'ncaches': h.get('ncaches', 0), 'objs': h.get('objs', []), 'calls': prefix,
                         'probe': {'abbr': a, 'via': 'dict', 'd': i}})
             if i < base_n and i in h.get('objs', []):
